@@ -58,7 +58,7 @@ CHECKS = {
             "DESIGN.md §5 C10"),
     "C11": ("exploration",
             "exhaustive enumeration of grammar-generated regexes and all short wildcard patterns x all short values against reference matchers",
-            "Every regex of <=4 (quick) / <=5 (thorough) nodes over {a,b,.,[ab],[^a],[\"],[\\]\"],[\\\"],[a\\\"],\\x61,a non-ASCII character,\",^,$} with ?,*,+,|,groups, in quoted and raw form, x every value of length <=3 over {a,b,A,\",LF,0xff,0xc3,0xa9}: result equals a backtracking reference matcher and the pattern stored in the JSON is the intended one; invalid regexes rejected; compiled-size limits {0,64,1024,65536,default} x dfa limits {0,default}: no panic, unchanged answers, monotone acceptance. Every wildcard pattern of length <=4/5 over {a,A,b,*,\\,?} x both operators x raw/quoted x every value of length <=3/4 (incl. 0xff): validity (escapes, **), case rule and whole-value matching per the reference; star limits 0..4.",
+            "Every regex of <=4 (quick) / <=5 (thorough) nodes over {a,b,.,[ab],[^a],[\"],[\\]\"],[\\\"],[a\\\"],\\x61,a non-ASCII character,\",^,$} with ?,*,+,|,groups, in quoted and raw form, x every value of length <=3 over {a,b,A,\",LF,0xff,0xc3,0xa9}: result equals a backtracking reference matcher and the pattern stored in the JSON is the intended one; invalid regexes rejected; compiled-size limits {0,64,1024,65536,default} x dfa limits {0,default}, configured through ParserSettings and through the parser's setters (same decision, limits read back): no panic, unchanged answers, monotone acceptance. Every wildcard pattern of length <=4/5 over {a,A,b,*,\\,?} x both operators x raw/quoted x every value of length <=3/4 (incl. 0xff): validity (escapes, **), case rule and whole-value matching per the reference; star limits 0..4 through the setter and through ParserSettings.",
             "Reference matchers harness/src/rx.rs; regex features outside the subset are not explored.",
             "DESIGN.md §5 C11"),
     "C14": ("exploration",
@@ -78,7 +78,7 @@ CHECKS = {
             "DESIGN.md §5 C16"),
     "C17": ("model_checking",
             "exhaustive registrations x programs x names with recorded matcher queries; BFS over matcher-state histories on real contexts",
-            "All 16 registration orders / subsets of a harness list (named sets, records every query) for Int, Ip, Bytes (matchers are routed by registration index; the same names hold different contents per type) x every left-hand-side shape (field, index path, [*] paths, call, call over [*]) x 7 list names x 36 contexts: results equal set membership per element, the recorded (name, value) queries are queries the reference makes (exactly the reference's where the filter leaves no freedom of evaluation order), types without a list are rejected at parse time; every list name of length <=3 over {a,z,0,_,.} plus an invalid set in four syntactic positions; built-in always / never lists on every shape, also on deserialised, cloned and cleared-and-refilled contexts; BFS (depth 5 / 7) over {insert into a named set, set / unset a field, clear, serialise -> deserialise into a fresh context, clone} for three registrations, all in-list filters evaluated after every step, dedup on the serialised context; every sequence of <=4 (quick) / <=5 (thorough) registrations of always / never lists for three types, refused duplicates included, then `x in $name` per type answered by the accepted registration.",
+            "All 16 registration orders / subsets of a harness list (named sets, records every query) for Int, Ip, Bytes (matchers are routed by registration index; the same names hold different contents per type) x every left-hand-side shape (field, index path, [*] paths, call, call over [*]) x 7 list names x 36 contexts: results equal set membership per element, the recorded (name, value) queries are queries the reference makes (exactly the reference's where the filter leaves no freedom of evaluation order), types without a list are rejected at parse time; every list name of length <=3 over {a,z,0,_,.} plus an invalid set in four syntactic positions; built-in always / never lists on every shape, also on deserialised, cloned and cleared-and-refilled contexts; BFS (depth 5 / 7) over {insert into a named set, set / unset a field, clear, serialise -> deserialise into a fresh context, clone} for three registrations, all in-list filters evaluated and the matcher state read back through both read accessors (by list reference, by type) after every step, inserts alternating between the two write accessors, every state reached by replaying its history on one live context, dedup on the serialised context; every sequence of <=4 (quick) / <=5 (thorough) registrations of always / never lists for three types, refused duplicates included, then `x in $name` per type answered by the accepted registration.",
             "The harness matcher's own (de)serialisation is serde-derived; state key = context serialisation.",
             "DESIGN.md §5 C17"),
     "C18": ("model_checking",
